@@ -64,11 +64,14 @@ Classes == CASE ClassSel = "all" -> { OptClasses[i] : i \in 1..5 }
              [] ClassSel = "alias" -> { OptClasses[6], OptClasses[7], OptClasses[8] }
              \* round 4: the classes whose handlers use the extra arguments
              [] ClassSel = "args" -> { OptClasses[1], OptClasses[4] }
-             [] ClassSel = "nil" -> { OptClasses[i] : i \in 9..13 }
+             [] ClassSel \in {"nil", "nilall"} -> { OptClasses[i] : i \in 9..13 }
              [] OTHER -> { OptClasses[1], OptClasses[2], OptClasses[3] }
 
 \* a class whose handlers use the extra arguments cannot have them dropped
-Valid(cls, o) == cls.args => (~o.da /\ ~o.dk)
+\* (round 7, ClassSel "nil" (quick): the argument-free classes are rewritten with drop_args and
+\* drop_kwargs both on or both off - 16 combinations; "nilall" (thorough): all 32)
+Valid(cls, o) == /\ cls.args => (~o.da /\ ~o.dk)
+                 /\ ClassSel = "nil" => (o.da = o.dk)
 
 FirstOpts ==
     IF FirstSel = "four"
